@@ -125,6 +125,18 @@ def fdepth : Host → Nat
   | .tryUntil _ body => fdepth body
   | _ => 0
 
+/-- most registers held at once by an EPR operation inside `op` -/
+def epeak : Host → Nat
+  | .seq a b => max (epeak a) (epeak b)
+  | .ifc _ _ _ _ body => epeak body
+  | .loop _ _ _ _ body => epeak body
+  | .loopBody _ _ _ _ body => epeak body
+  | .foreach _ _ body => epeak body
+  | .loopUntil _ body _ _ cl => max (epeak body) (epeak cl)
+  | .tryUntil _ body => epeak body
+  | .epr evs => peakEvs 0 evs
+  | _ => 0
+
 theorem tmp_le_one (v : Val) : v.tmp ≤ 1 := by cases v <;> simp [Val.tmp]
 theorem addNeed_le (v : Val) : v.addNeed ≤ Val.fdepth v + 1 := by
   cases v <;> simp [Val.addNeed, Val.fdepth]
@@ -132,33 +144,35 @@ theorem addNeed_le (v : Val) : v.addNeed ≤ Val.fdepth v + 1 := by
 /-- **depth_bound.** Inside an operation of nesting depth `k` at most `1·k + (2 + fdepth)` registers
 are taken on top of those active at its start: c = 1 per open loop-like operation, c' = 2
 temporaries (two condition operands / the two operands of `add`) plus one per level of
-future-indexed futures. -/
-theorem depth_bound (op : Host) (hc : Completed op) : need op ≤ depth op + (2 + fdepth op) := by
+future-indexed futures, plus — when EPR operations occur — the most registers such an operation holds
+at once (`epeak`, from the recorded register events). -/
+theorem depth_bound (op : Host) (hc : Completed op) : need op ≤ depth op + (2 + fdepth op) + epeak op := by
   induction op with
   | skip => simp [need]
   | seq a b iha ihb =>
     have := iha hc.1; have := ihb hc.2
-    simp only [need, depth, fdepth]; omega
+    simp only [need, depth, fdepth, epeak]; omega
   | newArray => simp [need]
   | newReg => exact hc.elim
-  | qop g t => cases t <;> simp [need, MTgt.need, fdepth, depth]
+  | qop g t => cases t <;> simp [need, MTgt.need, fdepth, depth, epeak] <;> omega
   | addF f o md =>
     have := addNeed_le o
-    simp only [need, depth, fdepth]; omega
+    simp only [need, depth, fdepth, epeak]; omega
   | addR h o md =>
     have := addNeed_le o
-    simp only [need, depth, fdepth]; omega
+    simp only [need, depth, fdepth, epeak]; omega
   | ifc cb c a b body ih =>
     have := ih hc; have := tmp_le_one a; have := tmp_le_one b
-    simp only [need, depth, fdepth]
+    simp only [need, depth, fdepth, epeak]
     split <;> omega
-  | loop rg s e d body ih => have := ih hc; simp only [need, depth, fdepth]; omega
-  | loopBody rg s e d body ih => have := ih hc; simp only [need, depth, fdepth]; omega
-  | foreach a w body ih => have := ih hc; simp only [need, depth, fdepth]; omega
+  | loop rg s e d body ih => have := ih hc; simp only [need, depth, fdepth, epeak]; omega
+  | loopBody rg s e d body ih => have := ih hc; simp only [need, depth, fdepth, epeak]; omega
+  | foreach a w body ih => have := ih hc; simp only [need, depth, fdepth, epeak]; omega
   | loopUntil n body ef ev cl ihb ihc =>
     have := ihb hc.1; have := ihc hc.2; have := tmp_le_one ef
-    simp only [need, depth, fdepth]; omega
-  | tryUntil n body ih => have := ih hc; simp only [need, depth, fdepth]; omega
+    simp only [need, depth, fdepth, epeak]; omega
+  | tryUntil n body ih => have := ih hc; simp only [need, depth, fdepth, epeak]; omega
+  | epr evs => simp [need, epeak]
 
 /-- **long_run_compiles** — the property in closed form: starting from a memory manager with `f`
 free registers, every program made of completed operations of nesting depth `k` and future-index
@@ -166,7 +180,7 @@ depth `d` with `k + 2 + d ≤ f`, of any length and with flushes anywhere, never
 registers. (`Sdk.run` starts from the fresh manager: 16 free.) -/
 theorem long_run_compiles (p : List Top) (m : Mem) (pend : List PCmd) (step : Nat) (acc : RunOut)
     (hfree : 0 < free m.active)
-    (hops : ∀ op, Top.op op ∈ p → Completed op ∧ depth op + (2 + fdepth op) ≤ free m.active)
+    (hops : ∀ op, Top.op op ∈ p → Completed op ∧ depth op + (2 + fdepth op) + epeak op ≤ free m.active)
     (hacc : ∀ st, acc.err ≠ some (st, .noRegister)) :
     ∀ st, (runProg m pend step acc p).err ≠ some (st, .noRegister) := by
   refine sequence_compiles p m pend step acc hfree ?_ hacc
@@ -292,6 +306,23 @@ theorem explicit_register_in_use_rejected :
     isRegState (emit Mem.init (.loop none 0 2 1 (.loopBody (some 0) 0 3 1 (.qop [] .newFut)))) = true ∧
     isRegState (emit Mem.init (.loop none 0 2 1 (.loop (some 0) 0 3 1 (.qop [] .newFut)))) = true ∧
     isOk (emit Mem.init (.loop none 0 2 1 (.loop (some 1) 0 3 1 (.qop [] .newFut)))) = true := by
+  decide +kernel
+
+/-! ### EPR operations -/
+
+/-- **balanced_epr.** An EPR operation — abstracted to the register events recorded from the real
+builder (`take` = lowest free register, `rel p` = release of the p-th held register) — whose events
+give back everything they take (`heldLen 0 evs = some 0`) leaves the active registers as they were,
+from EVERY memory-manager state. (It is the `epr` case of `balanced`; the generated table
+`Gen.eprForms` is shown balanced form by form in `Props/EprRegsObligations`.) -/
+theorem balanced_epr (evs : List EprEv) (m m' : Mem) (cs : List PCmd) (hb : heldLen 0 evs = some 0)
+    (h : emit m (.epr evs) = .ok (m', cs)) : m'.active = m.active :=
+  balanced (.epr evs) m m' cs hb h
+
+/-- the seeded shape C14_4 (two registers taken, never released) is not balanced and exhausts the pool -/
+theorem epr_leak_witness :
+    heldLen 0 [EprEv.take, .take, .take, .rel 0] = some 2 ∧
+    isNoReg (emitEprH Mem.init [] ((List.replicate 8 [EprEv.take, .take, .take, .rel 0]).flatten ++ [.take])) = true := by
   decide +kernel
 
 end NQ.C14
